@@ -184,7 +184,7 @@ func (db *SpecDB) loadFile(path string, defaultPkg string) error {
 		word, rest := splitWord(t)
 		if isGo {
 			for g, pre := range db.Private {
-				if !strings.HasPrefix(pkg, pre) && mentionsIdent(t, g) {
+				if !hasAnyPrefix(pkg, pre) && mentionsIdent(t, g) {
 					return fmt.Errorf("%s:%d: ghost state %s is private to contracts under %s (interface contracts do not list it, so no caller outside may rely on it)", path, ln, g, pre)
 				}
 			}
@@ -288,6 +288,16 @@ func (db *SpecDB) loadFile(path string, defaultPkg string) error {
 		}
 	}
 	return sc.Err()
+}
+
+// hasAnyPrefix: pre is a comma-separated list of package-path prefixes.
+func hasAnyPrefix(pkg, pre string) bool {
+	for _, p := range strings.Split(pre, ",") {
+		if strings.HasPrefix(pkg, strings.TrimSpace(p)) {
+			return true
+		}
+	}
+	return false
 }
 
 func mentionsIdent(line, name string) bool {
